@@ -308,10 +308,24 @@ func reentrantListing(d Directed, v *vt.V) {
 					done <- fmt.Sprintf("Repositories: %v", err)
 					return
 				}
+				prev := ""
+				nseen := 0
 				for tag, err := range mem.Tags(ctx, repo, "") {
 					if err != nil {
 						done <- fmt.Sprintf("Tags(%s): %v", repo, err)
 						return
+					}
+					// the consumer changes the repository's tags while it lists them: whatever the listing
+					// then shows of the change, it stays a listing - names, each once, ascending
+					if tag == "" || nseen > 0 && tag <= prev {
+						done <- fmt.Sprintf("Tags(%s), while tags of the repository are being added and removed from inside the loop, yielded %q after %q", repo, tag, prev)
+						return
+					}
+					prev = tag
+					nseen++
+					if nseen%2 == 1 {
+						mem.PushManifest(ctx, repo, fmt.Sprintf("a-new-%d-%d", i, nseen), m, "application/vnd.verif.opaque")
+						mem.DeleteTag(ctx, repo, fmt.Sprintf("a-new-%d-%d", i, nseen-2))
 					}
 					if _, err := mem.ResolveTag(ctx, repo, tag); err != nil {
 						done <- fmt.Sprintf("ResolveTag(%s, %s) of a listed tag: %v", repo, tag, err)
